@@ -41,6 +41,11 @@ type Plugin interface {
 	Apply(ra *ndp.RouterAdvertisement) error
 }
 
+// errNotPrepared is returned when a Plugin which depends on system state is
+// applied before Prepare has been called, such as when metrics are scraped
+// before an interface has been initialized.
+var errNotPrepared = errors.New("plugin has not been prepared for use with an interface")
+
 // CaptivePortal configures a NDP Captive Portal option.
 type CaptivePortal struct {
 	Portal *ndp.CaptivePortal
@@ -303,6 +308,10 @@ func (p *Prefix) Prepare(ifi *net.Interface) error {
 
 // Apply implements Plugin.
 func (p *Prefix) Apply(ra *ndp.RouterAdvertisement) error {
+	if (p.Auto && p.Addrs == nil) || (p.Deprecated && p.TimeNow == nil) {
+		return errNotPrepared
+	}
+
 	if !p.Auto {
 		// User specified an exact prefix so apply it directly.
 		p.apply([]netip.Prefix{p.Prefix}, ra)
@@ -495,6 +504,10 @@ func (r *Route) Prepare(_ *net.Interface) error {
 
 // Apply implements Plugin.
 func (r *Route) Apply(ra *ndp.RouterAdvertisement) error {
+	if (r.Auto && r.Routes == nil) || (r.Deprecated && r.TimeNow == nil) {
+		return errNotPrepared
+	}
+
 	if !r.Auto {
 		// User specified an exact route so apply it directly.
 		r.apply([]netip.Prefix{r.Prefix}, ra)
@@ -659,6 +672,10 @@ func (r *RDNSS) Prepare(ifi *net.Interface) error {
 
 // Apply implements Plugin.
 func (r *RDNSS) Apply(ra *ndp.RouterAdvertisement) error {
+	if r.Auto && r.Addrs == nil {
+		return errNotPrepared
+	}
+
 	if !r.Auto {
 		// User specified exact servers so apply them directly.
 		r.apply(r.Servers, ra)
